@@ -32,7 +32,7 @@ def step (st : St) (op impl : List String) : St × List String :=
     ({ st with reads := st.reads.push (nat side, nat si, { ppi := nat ppi, len := nat len, hash := nat hash }) }, [])
   | ["tx", from_, idx, t, len, _fate] =>
     let f := nat from_
-    let st := { st with pkts := st.pkts.insert (f, nat idx) impl }
+    let st := noteTx { st with pkts := st.pkts.insert (f, nat idx) impl } f impl
     let v := (checkTx st f (nat len) impl).toList
     -- a SACK from this side acknowledges whatever it was waiting to acknowledge
     if impl.any (·.startsWith "SACK:") then
